@@ -735,7 +735,47 @@ class Wide(Suite):
 
 
 
-SUITES = [Histories(), PoolEnum(), NestedHistories(), Deep(), Wide()]
+class HugeNumbers(Suite):
+    """Numeric segments beyond the moderate range: 4300 / 4301 / 5000 / 20000 digits (with sign, leading zeros) for int and
+    float converters, next to a generic two-field template that must take over when the converter declines.  Whether such
+    a segment IS an integer depends on the interpreter's limit on integer string conversion (PYTHONINTMAXSTRDIGITS): the
+    reference uses the same int() as the process under test, so the expectation follows the environment."""
+
+    name = 'huge_numbers'
+    exhaustive = True
+    budget = {'quick': 1, 'thorough': 1}
+    cap = 50
+
+    def cases(self, tier):
+        for n in (4299, 4300, 4301, 5000, 20000):
+            for shape in ('digits', 'negative', 'leading_zeros', 'float_digits'):
+                for with_generic in (True, False):
+                    yield {'n': n, 'shape': shape, 'generic': with_generic, 'env_case': True}
+
+    def run(self, case):
+        n, shape = case['n'], case['shape']
+        seg = {'digits': '9' * n, 'negative': '-' + '1' * n, 'leading_zeros': '0' * (n - 1) + '7', 'float_digits': '1' * n}[shape]
+        conv = 'float(finite=False)' if shape == 'float_digits' else 'int'
+        ops = [['add', '/n/{id:%s}' % conv, False]]
+        if case['generic']:
+            ops.append(['add', '/{category}/{name}', False])
+        ops += [['find', '/n/' + seg], ['find', '/n/12'], ['find', '/n/' + seg + 'x']]
+        try:
+            info, _n = run_history({'ops': ops}, self.cap)
+        except Violation as v:
+            d = v.detail
+            raise Violation(v.kind, '%s ... %s\n  compact case=%r' % (d[:300], d[-300:], case))
+        try:
+            int('1' * n)
+            convertible = True
+        except ValueError:
+            convertible = False
+        return Info(True, ['digits:%s' % ('<=4300' if n <= 4300 else '>4300'), 'shape:' + shape,
+                           'int()_accepts_it_here' if convertible else 'int()_refuses_it_here'])
+
+
+
+SUITES = [Histories(), PoolEnum(), NestedHistories(), Deep(), Wide(), HugeNumbers()]
 
 
 def _known_f34(suite_name, case, violation):
